@@ -57,7 +57,7 @@ def verify(k, prop, cls=None, invariants=None, calls=None, hooks=None, extra_pre
     for name, v in (ghost or {}).items(): st.ghost[name] = v
     pre_st = st.copy()
     spec.pre_view = View(pre_st, args)
-    cl0 = k.clauses(args, pre_st, pre_st, P_NONE)
+    cl0 = k.clauses(args, pre_st, pre_st, P_NONE, True)
     for lab, f in cl0.requires: st.assume(f)
     if extra_pre:
         for f in extra_pre(View(pre_st, args)): st.assume(f)
@@ -83,7 +83,7 @@ def verify(k, prop, cls=None, invariants=None, calls=None, hooks=None, extra_pre
         path = '; '.join(s1.labels[-6:])
         if fl[0] == 'return':
             res = fl[1]
-            cl = k.clauses(args, pre_st, s1, res)
+            cl = k.clauses(args, pre_st, s1, res, True)
             info.exits.append(('return', path))
             for lab, f in cl.ensures: ob(f'post:{lab}', s1, f, meta={'exit': 'return', 'path': path})
             if cl.result_pv is not None:
@@ -96,7 +96,7 @@ def verify(k, prop, cls=None, invariants=None, calls=None, hooks=None, extra_pre
         else:
             exc = fl[1]
             info.exits.append((f'raise {exc.cls}', path))
-            cl = k.clauses(args, pre_st, s1, P_NONE)
+            cl = k.clauses(args, pre_st, s1, P_NONE, True)
             match = [rc for rc in cl.raises if exc.cls is not None and _exc_covered(exc.cls, rc.cls)]
             if not match:
                 ob(f'no_unexpected_raise:{exc.cls}', s1, BoolVal(False),
